@@ -21,6 +21,7 @@ pub mod txobs;
 pub mod scen_zrtt2;
 pub mod scen_reset;
 pub mod ledger;
+pub mod addrval;
 pub mod scen_conn;
 pub mod scen_determ;
 pub mod scenarios;
